@@ -1,12 +1,59 @@
-// ---- vacuity guards of unit U8 ----------------------------------------------------------------------
+// ---- C06 stated about the RUNNING code (verified against the contracts of the real functions) -------------
+
+// First sentence of C06: normalise and evaluate the same closed term; if both end in a ground result (an integer
+// literal or a truth value) it is the same one.  Rests on the two contracts, on lemma_step_is_red (the evaluator's
+// rules are among the normaliser's) and on the ASSUMED confluence of the reference relation (axiom_confluence).
+fn corollary_normalise_agrees_with_evaluate<'a>(term: &Term<'a>)
+    requires
+        s_ok(view(*term), 0, BOUND() as nat),
+        s_closed_at(view(*term), 0),
+{
+    let mut ctx: Vec<Option<(Rc<Term<'a>>, usize)>> = Vec::new();
+    let w = normalize_weak_head(term, &mut ctx);
+    let e = evaluate(term);
+    proof {
+        if e is Ok {
+            let v = e->Ok_0;
+            if s_ground(view(v)) && s_ground(view(w)) {
+                theorem_normalise_agrees_with_evaluate(view(*term), view(v), view(w));
+                assert(view(v) == view(w));
+            }
+        }
+    }
+}
+
+// Second sentence of C06, first half: every term (without unresolved holes) is judged equal to itself.
+fn corollary_unify_reflexive<'a>(term: &Term<'a>, definitions_context: &mut Vec<Option<(Rc<Term<'a>>, usize)>>)
+    requires
+        s_ok(view(*term), 0, BOUND() as nat),
+        s_closed_at(view(*term), old(definitions_context)@.len()),
+        ctx_plain(old(definitions_context)@),
+{
+    let r = unify(term, term, definitions_context);
+    assert(r);
+}
+
+// ---- vacuity guards of unit U8: every precondition is satisfiable ----------------------------------------
 fn witness_u8() {
-    broadcast use group_ok;
+    broadcast use {group_ok, group_fv};
     let t = Term { source_range: None, variant: True };
     let a = Term { source_range: None, variant: Type };
+    let b = Term { source_range: None, variant: Integer };
     assert(view(t) == STerm::Node(Kind::True, s0()));
     assert(view(a) == STerm::Node(Kind::Type, s0()));
+    assert(view(b) == STerm::Node(Kind::Integer, s0()));
     let e = syntactically_equal(&t, &a);
+    let cond = Term { source_range: None, variant: If(Rc::new(t), Rc::new(a), Rc::new(b)) };
+    assert(view(cond) == STerm::Node(Kind::If, s3(view(t), view(a), view(b))));
+    proof { assert forall|x: nat| !#[trigger] s_has_fv(view(cond), 0, x) by {} }
+    let mut ctx: Vec<Option<(Rc<Term<'static>>, usize)>> = Vec::new();
+    let w = normalize_weak_head(&cond, &mut ctx);
+    let u = unify(&cond, &cond, &mut ctx);
+    corollary_normalise_agrees_with_evaluate(&cond);
+    corollary_unify_reflexive(&cond, &mut ctx);
 }
+
+// Must-fail canaries (quick tier): each asserts the NEGATION of something the contract implies at a concrete call.
 fn canary_syntactically_equal() {
     broadcast use group_ok;
     let t = Term { source_range: None, variant: True };
@@ -14,4 +61,20 @@ fn canary_syntactically_equal() {
     assert(view(t) == STerm::Node(Kind::True, s0()));
     let e = syntactically_equal(&t, &a);
     assert(!e);
+}
+fn canary_normalize_weak_head() {
+    broadcast use {group_ok, group_fv};
+    let t = Term { source_range: None, variant: True };
+    assert(view(t) == STerm::Node(Kind::True, s0()));
+    let mut ctx: Vec<Option<(Rc<Term<'static>>, usize)>> = Vec::new();
+    let w = normalize_weak_head(&t, &mut ctx);
+    assert(!s_whnf(view(w)));
+}
+fn canary_unify() {
+    broadcast use {group_ok, group_fv};
+    let t = Term { source_range: None, variant: True };
+    assert(view(t) == STerm::Node(Kind::True, s0()));
+    let mut ctx: Vec<Option<(Rc<Term<'static>>, usize)>> = Vec::new();
+    let r = unify(&t, &t, &mut ctx);
+    assert(!r);
 }
